@@ -43,14 +43,16 @@ VARIABLES cfg, perm1,
           batch,     \* batch[i] = sequence of ids of batch i
           infoShuf,  \* shuffle seed recorded in the settings file (0 = False)
           res,       \* res[i] \in {"absent", "ok", "bad"}
-          failing,   \* ids on which the function currently raises
+          failing,   \* ids on which version 1 of the function raises
+          hfn, dfn,  \* version of the function held by the current handle / pickled in the crop (0: none)
+          kver, sownK, \* version of the farmer's constants now / baked into the sown batches
           cause,     \* why a complete reap would fail: "none" | "build" | "merge" | "save"
           store,     \* ids delivered to the farmer's on-disk data (Harvester / Sampler)
           outcome,   \* of the last call
           value,     \* what the last successful reap returned, as sequence over all locations
           hist, steps
 
-vars == <<cfg, perm1, dir, B, bsz, rem, sown, batch, infoShuf, res, failing, cause, store, outcome, value, hist, steps>>
+vars == <<cfg, perm1, dir, B, bsz, rem, sown, batch, infoShuf, res, failing, hfn, dfn, kver, sownK, cause, store, outcome, value, hist, steps>>
 
 Missing == 0
 
@@ -95,6 +97,7 @@ Init == /\ cfg \in Configs
         /\ B = 0 /\ bsz = 0 /\ rem = 0
         /\ sown = <<>> /\ batch = <<>> /\ infoShuf = 0
         /\ res = <<>> /\ failing = cfg.failing /\ cause = cfg.cause
+        /\ hfn = 1 /\ dfn = 0 /\ kver = 0 /\ sownK = 0
         /\ store = {}
         /\ outcome = "none" /\ value = <<>>
         /\ hist = <<>> /\ steps = 0
@@ -126,15 +129,16 @@ Cut(seq, size, extra, i) ==
          IN  <<SubSeq(seq, 1, len)>> \o Cut(SubSeq(seq, len + 1, Len(seq)), size, extra, i + 1)
 
 Sow ==
-    /\ dir = "none"
+    /\ dir \in {"none", "deleted"}           \* "deleted": a second campaign on the same Crop object
     /\ dir' = "present"
+    /\ dfn' = hfn /\ sownK' = kver          \* the handle's function is pickled, the current constants are baked in
     /\ B' = ChosenB /\ bsz' = ChosenBsz /\ rem' = ChosenRem
     /\ sown' = PermOf(SowShuffle)
     /\ batch' = Cut(PermOf(SowShuffle), ChosenBsz, ChosenRem, 1)
     /\ infoShuf' = RecordedShuffle
     /\ res' = [i \in 1..ChosenB |-> "absent"]
     /\ outcome' = "ok"
-    /\ UNCHANGED <<cfg, perm1, failing, cause, store, value, steps>>
+    /\ UNCHANGED <<cfg, perm1, failing, hfn, kver, cause, store, value, steps>>
 
 Step == steps < MaxSteps /\ steps' = (IF Record THEN steps + 1 ELSE steps)
 
@@ -142,16 +146,18 @@ Step == steps < MaxSteps /\ steps' = (IF Record THEN steps + 1 ELSE steps)
 ReSow ==
     /\ dir = "present" /\ Step
     /\ outcome' = "ok"
-    /\ UNCHANGED <<cfg, perm1, dir, B, bsz, rem, sown, batch, infoShuf, res, failing, cause, store, value>>
+    /\ dfn' = hfn                           \* prepare() saves the handle's function again
+    /\ UNCHANGED <<cfg, perm1, dir, B, bsz, rem, sown, batch, infoShuf, res, failing, hfn, kver, sownK, cause, store, value>>
 
-Fails(i) == \E k \in 1..Len(batch[i]) : batch[i][k] \in failing
+(* growing always un-pickles the function stored in the crop - cropping.py:1156-1158 *)
+Fails(i) == dfn = 1 /\ \E k \in 1..Len(batch[i]) : batch[i][k] \in failing
 
 Grow(i, via) ==
     /\ dir = "present" /\ Step /\ i \in 1..B
     /\ IF Fails(i)
           THEN outcome' = "raised" /\ UNCHANGED res          \* nothing is written for a batch whose function raised
           ELSE outcome' = "ok" /\ res' = [res EXCEPT ![i] = "ok"]
-    /\ UNCHANGED <<cfg, perm1, dir, B, bsz, rem, sown, batch, infoShuf, failing, cause, store, value>>
+    /\ UNCHANGED <<cfg, perm1, dir, B, bsz, rem, sown, batch, infoShuf, failing, hfn, dfn, kver, sownK, cause, store, value>>
 
 MissingSeq == SelectSeq(Iota(B), LAMBDA i : res[i] = "absent")
 
@@ -167,48 +173,59 @@ GrowSeq(ids) ==
 GrowSet(S) ==
     /\ dir = "present" /\ Step /\ S # {} /\ S \subseteq 1..B
     /\ GrowSeq(SortedSeq(S))
-    /\ UNCHANGED <<cfg, perm1, dir, B, bsz, rem, sown, batch, infoShuf, failing, cause, store, value>>
+    /\ UNCHANGED <<cfg, perm1, dir, B, bsz, rem, sown, batch, infoShuf, failing, hfn, dfn, kver, sownK, cause, store, value>>
 
 (* Crop.grow_missing() = Crop.grow(missing_results()) *)
 GrowMissing ==
     /\ dir = "present" /\ Step
     /\ GrowSeq(MissingSeq)
-    /\ UNCHANGED <<cfg, perm1, dir, B, bsz, rem, sown, batch, infoShuf, failing, cause, store, value>>
+    /\ UNCHANGED <<cfg, perm1, dir, B, bsz, rem, sown, batch, infoShuf, failing, hfn, dfn, kver, sownK, cause, store, value>>
 
+(* the user corrects the function in the session (crop.fn = fixed); workers see it after a re-sow *)
 FixFn ==
-    /\ dir = "present" /\ Step /\ failing # {}
-    /\ failing' = {}
+    /\ dir = "present" /\ Step /\ hfn = 1
+    /\ hfn' = 2
     /\ outcome' = "ok"
-    /\ UNCHANGED <<cfg, perm1, dir, B, bsz, rem, sown, batch, infoShuf, res, cause, store, value>>
+    /\ UNCHANGED <<cfg, perm1, dir, B, bsz, rem, sown, batch, infoShuf, res, failing, dfn, kver, sownK, cause, store, value>>
+
+(* between two campaigns the user changes the farmer's constants (runner.constants = ...) *)
+ChangeConst ==
+    /\ dir = "deleted" /\ Step /\ cfg.farmer # "none" /\ kver = 0
+    /\ kver' = 1
+    /\ outcome' = "ok"
+    /\ UNCHANGED <<cfg, perm1, dir, B, bsz, rem, sown, batch, infoShuf, res, failing, hfn, dfn, sownK, cause, store, value>>
 
 Delete(i) ==
     /\ dir = "present" /\ Step /\ i \in 1..B /\ res[i] # "absent"
     /\ res' = [res EXCEPT ![i] = "absent"]
     /\ outcome' = "ok"
-    /\ UNCHANGED <<cfg, perm1, dir, B, bsz, rem, sown, batch, infoShuf, failing, cause, store, value>>
+    /\ UNCHANGED <<cfg, perm1, dir, B, bsz, rem, sown, batch, infoShuf, failing, hfn, dfn, kver, sownK, cause, store, value>>
 
 Corrupt(i) ==
     /\ dir = "present" /\ Step /\ i \in 1..B /\ res[i] = "ok"
     /\ res' = [res EXCEPT ![i] = "bad"]
     /\ outcome' = "ok"
-    /\ UNCHANGED <<cfg, perm1, dir, B, bsz, rem, sown, batch, infoShuf, failing, cause, store, value>>
+    /\ UNCHANGED <<cfg, perm1, dir, B, bsz, rem, sown, batch, infoShuf, failing, hfn, dfn, kver, sownK, cause, store, value>>
 
 CheckBad ==
     /\ dir = "present" /\ Step
     /\ res' = [i \in 1..B |-> IF res[i] = "bad" THEN "absent" ELSE res[i]]
     /\ outcome' = "ok"
-    /\ UNCHANGED <<cfg, perm1, dir, B, bsz, rem, sown, batch, infoShuf, failing, cause, store, value>>
+    /\ UNCHANGED <<cfg, perm1, dir, B, bsz, rem, sown, batch, infoShuf, failing, hfn, dfn, kver, sownK, cause, store, value>>
 
-Reload ==
+(* fromDisk: Crop(name=, parent_dir=) alone - function (and farmer) are un-pickled from the crop;
+   otherwise the session's own function / farmer object is attached again *)
+Reload(fromDisk) ==
     /\ dir = "present" /\ Step
+    /\ hfn' = IF fromDisk THEN dfn ELSE hfn
     /\ outcome' = "ok"
-    /\ UNCHANGED <<cfg, perm1, dir, B, bsz, rem, sown, batch, infoShuf, res, failing, cause, store, value>>
+    /\ UNCHANGED <<cfg, perm1, dir, B, bsz, rem, sown, batch, infoShuf, res, failing, dfn, kver, sownK, cause, store, value>>
 
 FixCause ==
     /\ dir = "present" /\ Step /\ cause # "none"
     /\ cause' = "none"
     /\ outcome' = "ok"
-    /\ UNCHANGED <<cfg, perm1, dir, B, bsz, rem, sown, batch, infoShuf, res, failing, store, value>>
+    /\ UNCHANGED <<cfg, perm1, dir, B, bsz, rem, sown, batch, infoShuf, res, failing, hfn, dfn, kver, sownK, store, value>>
 
 -----------------------------------------------------------------------------
 (* Reaping - cropping.py:631-918, 1219-1283 *)
@@ -266,7 +283,7 @@ Reap(c, a) ==
             /\ value' = Placed
             /\ store' = IF cfg.farmer \in {"harvester", "sampler"} THEN store \cup Delivered ELSE store
             /\ dir' = IF CleanUp(c, a) THEN "deleted" ELSE dir
-    /\ UNCHANGED <<cfg, perm1, B, bsz, rem, sown, batch, infoShuf, res, failing, cause>>
+    /\ UNCHANGED <<cfg, perm1, B, bsz, rem, sown, batch, infoShuf, res, failing, hfn, dfn, kver, sownK, cause>>
 
 (* Observations the real crop must agree with after every call *)
 Obs == [prepared |-> dir = "present",
@@ -284,7 +301,7 @@ Do(A, name, args) ==
     /\ hist' = IF Record
                 THEN Append(hist, [a |-> name, args |-> args, post |-> Obs',
                                    value |-> IF name = "reap" /\ outcome' \in {"complete", "partial"} THEN value' ELSE <<>>,
-                                   store |-> store'])
+                                   store |-> store', k |-> sownK'])
                 ELSE hist
 
 On(name) == name \in Acts
@@ -297,16 +314,17 @@ ReapAny == On("reap") /\ \E c \in {"none", "true", "false"} : \E a \in BOOLEAN :
 ReapDefault == On("reap_default") /\ Do(Reap("none", FALSE), "reap", <<"none", FALSE>>)
 ReapPartialAny == On("reap_partial") /\ \E c \in {"none", "true", "false"} : Do(Reap(c, TRUE), "reap", <<c, TRUE>>)
 
-DoSow == dir = "none" /\ Do(Sow, "sow", <<>>)
+DoSow == dir \in {"none", "deleted"} /\ (dir = "deleted" => On("campaign2")) /\ Do(Sow, "sow", <<>>)
 DoReSow == On("resow") /\ Do(ReSow, "resow", <<>>)
 DoGrowMissing == On("grow_missing") /\ Do(GrowMissing, "grow_missing", <<>>)
 DoFixFn == On("fix_fn") /\ Do(FixFn, "fix_fn", <<>>)
 DoCheckBad == On("check_bad") /\ Do(CheckBad, "check_bad", <<>>)
-DoReload == On("reload") /\ Do(Reload, "reload", <<>>)
+DoReload == On("reload") /\ \E fd \in BOOLEAN : Do(Reload(fd), "reload", <<fd>>)
+DoChangeConst == On("campaign2") /\ Do(ChangeConst, "change_const", <<>>)
 DoFixCause == On("fix_cause") /\ Do(FixCause, "fix_cause", <<cause>>)
 
 Next == \/ DoSow \/ DoReSow \/ GrowAny \/ GrowSetAny \/ DoGrowMissing \/ DoFixFn
-        \/ DeleteAny \/ CorruptAny \/ DoCheckBad \/ DoReload \/ DoFixCause
+        \/ DeleteAny \/ CorruptAny \/ DoCheckBad \/ DoReload \/ DoFixCause \/ DoChangeConst
         \/ ReapAny \/ ReapPartialAny \/ ReapDefault
 
 Spec == Init /\ [][Next]_vars
@@ -372,11 +390,11 @@ TypeOK == /\ dir \in {"none", "present", "deleted"}
 
 -----------------------------------------------------------------------------
 (* emission of complete behaviours for the replay *)
-Terminal == dir = "deleted" \/ (dir = "present" /\ steps = MaxSteps)
+Terminal == (dir = "deleted" /\ ~On("campaign2")) \/ (dir # "none" /\ steps = MaxSteps)
 EmitCase ==
     (Record /\ Terminal) =>
         PrintT(<<"CASE", ToJson([cfg |-> cfg, n |-> N, perm1 |-> perm1, settings |-> Enumeration, axes |-> Axes,
                                  nb |-> B, bsz |-> bsz, rem |-> rem, batch |-> batch, hist |-> hist])>>)
 
-View == <<cfg, perm1, dir, B, bsz, rem, sown, batch, infoShuf, res, failing, cause, store, outcome, value>>
+View == <<cfg, perm1, dir, B, bsz, rem, sown, batch, infoShuf, res, failing, hfn, dfn, kver, sownK, cause, store, outcome, value>>
 =============================================================================
